@@ -1710,7 +1710,7 @@ def _custom_nanquantile(
             for i, n in enumerate(a.shape)
             if keepdims or i not in axis
         ]
-        dtype = np.nanquantile(np.ones(1, dtype=a.dtype), 0.5).dtype
+        dtype = np.nanquantile(np.ones(1, dtype=a.dtype), 0.5, method=method).dtype
         return np.empty(tuple(np.shape(q)) + tuple(kept), dtype=dtype)
     if (
         method != "linear"
